@@ -57,8 +57,9 @@ ASSUMPTIONS = [
     'names are right-justified in their natural length (2 or 3 characters by convention) and well names fill their '
     'five columns: the format documentation warns that only right-justified names are safe, and a name shorter than '
     'its field cannot be told from its blank-extended form',
-    'coordinates stay within the 10-column limit IN FILE UNITS (a geometry whose feet values need 11 columns is not '
-    'enumerated: g1, g2, g3 in feet), so the precision-reducing / raising width guard of the writer is never met',
+    'a coordinate that needs more than 10 columns at two decimals (one for wells) is compared to the decimals that '
+    'fit in 10 columns (group over, and g1, g2, g3 in feet); a value whose integer part needs more than 10 columns '
+    'is not enumerated; reference-written files exist only for values a Fortran F10.2 can print',
     'elevations are distinct by at least 0.01 file units or exactly equal, so rounding to two decimals cannot '
     'reorder a surface and a layer boundary (which would legitimately change the derived block list)',
     'dmplex block order only for geometries whose columns all have 3 or 4 vertices (documented precondition)',
@@ -254,6 +255,22 @@ def prior_file(kind):
     return path
 
 
+# values that need more than 10 columns at two decimals: written with the decimals that fit (file units)
+OVER = {'carry-at-2-decimals': 9999999.996, 'one-decimal': 12345678.25, 'carry-at-1-decimal': 99999999.96,
+        'carry-at-1-decimal-b': 99999999.9901, 'no-decimal': 123456789.25, 'carry-at-0-decimals': 999999999.6,
+        'ten-digits': 9999999999.4, 'neg-carry-at-2-decimals': -999999.996, 'neg-one-decimal': -1234567.25,
+        'neg-carry-at-1-decimal': -9999999.96, 'neg-no-decimal': -12345678.25, 'neg-nine-digits': -999999999.4}
+
+
+def specs_over(tier):
+    out = []
+    for k in sorted(OVER):
+        for unit in ('m', 'ft'):
+            out.append(rect(2, 2, 'mixed', 0, 1, unit, over=k, wells=[2], centres=[3]))
+            out.append(rect(1, 1, 'uniform', 2, 0, unit, over=k))
+    return out
+
+
 def specs_shipped(tier):
     files = ['g1', 'g2', 'g3', 'g4', 'g5', 'g6', 'g7'] if tier == 'thorough' else ['g5', 'g7']
     out = []
@@ -276,6 +293,11 @@ EDITS = ([['rename', [i]] for i in range(6)] +
 def specs_derived(tier):
     out = []
     # name and membership edits after which list order and dictionary order of the geometry may differ
+    for which in ('higher', 'lower', 'same'):
+        for unit in ('m', 'ft'):
+            out.append(rect(3, 2, 'mixed', 0, 1, unit, derive=['copy_layers', which]))
+            out.append(rect(3, 2, 'mixed', 0, 0, unit, derive=['copy_layers', which],
+                            surface={'cols': [1, 4], 'kind': 'mixed'}))
     for d in EDITS:
         for unit in ('m', 'ft'):
             out.append(rect(3, 2, 'mixed', 0, 1, unit, derive=d, wells=[2], surface={'cols': [1, 4], 'kind': 'mixed'}))
@@ -309,7 +331,7 @@ def specs_derived(tier):
 
 
 GROUPS = [('opt', specs_opt, 48), ('surf', specs_surf, 32), ('wells', specs_wells, 8), ('names', specs_names, 8),
-          ('limits', specs_limits, 2), ('layers', specs_layers, 4), ('route', specs_route, 2),
+          ('limits', specs_limits, 2), ('layers', specs_layers, 4), ('route', specs_route, 2), ('over', specs_over, 2),
           ('reader', lambda tier: specs_reader(tier), 4), ('shipped', specs_shipped, 64),
           ('derived', specs_derived, 32), ('order', lambda tier: specs_order(tier), 4)]
 
@@ -351,6 +373,12 @@ def build(spec):
             sy = [40.] * spec['ny']
         if spec.get('limit'):
             sx, sy = [100., 106.5][:spec['nx']], [106.5, 100.][:spec['ny']]
+        if spec.get('over'):
+            V = OVER[spec['over']]
+            if V > 0:       # the largest x, y and the top elevation are V
+                origin = [V - sum(sx), V - sum(sy), V]
+            else:           # the smallest x, y and the bottom elevation are V
+                origin = [V, V, V + sum(ZBLOCKS)]
         kw = {}
         if spec.get('case'):
             kw['case'] = spec['case']
@@ -372,7 +400,7 @@ def build(spec):
         if order != 'none':
             g.block_order = order
     scale = FEET if spec.get('unit') == 'ft' else 1.0
-    if spec.get('limit') and scale != 1.0:
+    if (spec.get('limit') or spec.get('over')) and scale != 1.0:
         # the limits are limits of the FILE: in feet the geometry in memory is the metre image of the same numbers
         for nd in g.nodelist:
             nd.pos = nd.pos * scale
@@ -439,6 +467,9 @@ def build(spec):
                 if w == 0 and k == npts - 1:
                     p[2] = -abs(p[2]) - 1234.5
                 track.append(np.array(p))
+            if spec.get('over') and w == 0:
+                V = OVER[spec['over']] * scale
+                track[0] = np.array([V, V, V])
             if wlimit and w == 0:
                 hi, lo = 99999999.9 * scale, -9999999.9 * scale
                 track[0] = np.array([hi, lo, hi])
@@ -486,6 +517,11 @@ def build(spec):
         elif d[0] == 'rename_layer':
             for i in d[1]:
                 g.rename_layer(g.layerlist[i].name, '%2d' % (90 + i))
+        elif d[0] == 'copy_layers':
+            # layer structure taken from another geometry whose top is higher / lower / the same
+            top = g.layerlist[0].bottom + {'higher': 45.5, 'lower': -7.25, 'same': 0.0}[d[1]]
+            other = mulgrids.mulgrid().rectangular([10.], [10.], [30., 12.75, 50.], origin=[0., 0., top])
+            g.copy_layers_from(other)
         elif d[0] == 'deladd':
             col = g.columnlist[d[1]]
             cons = [con for con in g.connectionlist if col in con.column]
@@ -514,6 +550,7 @@ def describe(g):
             'connections': [(c.column[0].name, c.column[1].name) for c in g.connectionlist],
             'layers': [(l.name, f(l.bottom), f(l.centre)) for l in g.layerlist],
             'surface': [(c.name, f(c.surface)) for c in g.columnlist if not c.default_surface],
+            'all_surface': [(c.name, f(c.surface)) for c in g.columnlist],
             'wells': [(w.name, [(f(p[0]), f(p[1]), f(p[2])) for p in w.pos]) for w in g.welllist],
             'block_name_list': list(g.block_name_list),
             'block_connection_name_list': [tuple(c) for c in g.block_connection_name_list]}
@@ -528,10 +565,26 @@ def unit_scale(unit_type):
     raise ValueError('unit type %r' % unit_type)
 
 
+def fit_precision(v, d, w=10):
+    """Most decimals (<= d) with which v can be printed in w columns, None when not even its integer part fits.
+    The format carries d decimals 'up to the 10-column limit'; a wider value keeps the decimals that fit."""
+    for p in range(d, -1, -1):
+        if len('%.*f' % (p, v)) <= w:
+            return p
+    return None
+
+
+def ft(vfile, d):
+    """Half a unit of the last decimal the field can carry for this value (file units)."""
+    p = fit_precision(vfile, d)
+    return 0.5 * 10.0 ** (-(d if p is None else p))
+
+
 def fits_file(D, scale):
-    """Every length of the geometry fits its 10 columns at the format's own precision, in file units."""
+    """Every length of the geometry can be printed in its 10 columns (with as many decimals as fit), in file
+    units."""
     def ok(v, d):
-        return v is None or len('%.*f' % (d, v / scale)) <= 10
+        return v is None or fit_precision(v / scale, d) is not None
     return (all(ok(x, 2) and ok(y, 2) for _, x, y in D['nodes'])
             and all(ok(c[3], 2) and ok(c[4], 2) for c in D['columns'])
             and all(ok(b, 2) and ok(c, 2) for _, b, c in D['layers'])
@@ -593,7 +646,7 @@ def cmp_file(D, R, F):
         if not fc.name_matches(t, name, 3):
             F.add('node.name', 'node %r written as %r' % (name, t))
         for (v, u), m, ax in ((x, mx, 'x'), (y, my, 'y')):
-            if not close(v, m / scale, 0.005):
+            if not close(v, m / scale, ft(m / scale, 2)):
                 F.add('node.xy', 'node %r %s = %r (%r in file units) written as %r' % (name, ax, m, m / scale, v))
     # columns
     if len(R['columns']) != len(D['columns']):
@@ -607,7 +660,7 @@ def cmp_file(D, R, F):
             F.add('column.nodes', 'column %r nodes %r written as %r' % (name, mnodes, nodes))
         if mcs:
             for (v, u), m in ((cx, mx), (cy, my)):
-                if not close(v, m / scale, 0.005):
+                if not close(v, m / scale, ft(m / scale, 2)):
                     F.add('column.centre', 'column %r specified centre %r (%r in file units) written as %r'
                           % (name, m, m / scale, v))
     # connections
@@ -621,9 +674,9 @@ def cmp_file(D, R, F):
     for (t, b, c), (name, mb, mc_) in zip(R['layers'], D['layers']):
         if not fc.name_matches(t, name, 3):
             F.add('layer.name', 'layer %r written as %r' % (name, t))
-        if not close(b[0], mb / scale, 0.005):
+        if not close(b[0], mb / scale, ft(mb / scale, 2)):
             F.add('layer.bottom', 'layer %r bottom %r (%r in file units) written as %r' % (name, mb, mb / scale, b[0]))
-        if not close(c[0], mc_ / scale, 0.005):
+        if not close(c[0], mc_ / scale, ft(mc_ / scale, 2)):
             F.add('layer.centre', 'layer %r centre %r (%r in file units) written as %r' % (name, mc_, mc_ / scale, c[0]))
     # surface
     if len(R['surface']) != len(D['surface']) or not all(fc.name_matches(t, n, 3)
@@ -632,7 +685,7 @@ def cmp_file(D, R, F):
               % ([n for n, e in D['surface']][:8], [t for t, e in R['surface']][:8]))
     else:
         for (t, e), (n, me) in zip(R['surface'], D['surface']):
-            if not close(e[0], me / scale, 0.005):
+            if not close(e[0], me / scale, ft(me / scale, 2)):
                 F.add('surface.elevation', 'column %r surface %r (%r in file units) written as %r'
                       % (n, me, me / scale, e[0]))
     # wells
@@ -649,7 +702,7 @@ def cmp_file(D, R, F):
         for (t, ps), (n, mps) in zip(tracks, D['wells']):
             for p, mp in zip(ps, mps):
                 for v, m in zip(p, mp):
-                    if not close(v, m / scale, 0.05):
+                    if not close(v, m / scale, ft(m / scale, 1)):
                         F.add('well.xyz', 'well %r point %r (%r in file units) written as %r'
                               % (n, mp, tuple(q / scale for q in mp), p))
     want_order = ['node', 'column', 'connection', 'layer'] + (['surface'] if D['surface'] else []) + \
@@ -672,13 +725,15 @@ def cmp_mem(D, D2, F, coords=True):
     if not close(H2['permeability_angle'], H['permeability_angle'], 0.005):
         F.add('header.permeability_angle', 'angle %r came back as %r' % (H['permeability_angle'],
                                                                         H2['permeability_angle']))
-    t2, tw = 0.005 * scale, 0.05 * scale
+
+    def T(m, d):
+        return ft(m / scale, d) * scale
     if [n for n, x, y in D['nodes']] != [n for n, x, y in D2['nodes']]:
         F.add('node.name', 'node names %r... came back as %r...' % ([n for n, x, y in D['nodes']][:6],
                                                                    [n for n, x, y in D2['nodes']][:6]))
     elif coords:
         for (n, x, y), (n2, x2, y2) in zip(D['nodes'], D2['nodes']):
-            if not (close(x2, x, t2) and close(y2, y, t2)):
+            if not (close(x2, x, T(x, 2)) and close(y2, y, T(y, 2))):
                 F.add('node.xy', 'node %r at %r came back at %r' % (n, (x, y), (x2, y2)))
     if [c[0] for c in D['columns']] != [c[0] for c in D2['columns']]:
         F.add('column.name', 'column names %r... came back as %r...' % ([c[0] for c in D['columns']][:6],
@@ -689,7 +744,7 @@ def cmp_mem(D, D2, F, coords=True):
                 F.add('column.nodes', 'column %r nodes %r came back as %r' % (c[0], c[2], c2[2]))
             if c[1] != c2[1]:
                 F.add('column.centre_flag', 'column %r centre_specified %r came back as %r' % (c[0], c[1], c2[1]))
-            elif c[1] and coords and not (close(c2[3], c[3], t2) and close(c2[4], c[4], t2)):
+            elif c[1] and coords and not (close(c2[3], c[3], T(c[3], 2)) and close(c2[4], c[4], T(c[4], 2))):
                 F.add('column.centre', 'column %r specified centre %r came back as %r' % (c[0], c[3:5], c2[3:5]))
     if D['connections'] != D2['connections']:
         F.add('connection', 'connections %r... came back as %r...' % (D['connections'][:4], D2['connections'][:4]))
@@ -698,9 +753,9 @@ def cmp_mem(D, D2, F, coords=True):
                                                                [l[0] for l in D2['layers']]))
     elif coords:
         for i, ((n, b, c), (n2, b2, c2)) in enumerate(zip(D['layers'], D2['layers'])):
-            if not close(b2, b, t2):
+            if not close(b2, b, T(b, 2)):
                 F.add('layer.bottom', 'layer %r bottom %r came back as %r' % (n, b, b2))
-            if not close(c2, c, t2):
+            if not close(c2, c, T(c, 2)):
                 cls = None
                 if c == 0.0:
                     # a stored 0.00 is where a reader may confuse 'zero' with 'blank': say which 0.0 it was
@@ -715,16 +770,25 @@ def cmp_mem(D, D2, F, coords=True):
               % ([n for n, e in D['surface']][:8], [n for n, e in D2['surface']][:8]))
     elif coords:
         for (n, e), (n2, e2) in zip(D['surface'], D2['surface']):
-            if not close(e2, e, t2):
+            if not close(e2, e, T(e, 2)):
                 F.add('surface.elevation', 'column %r surface %r came back as %r' % (n, e, e2))
+    if coords and 'surface.columns' not in F.clauses and 'surface.elevation' not in F.clauses and \
+            [n for n, e in D['all_surface']] == [n for n, e in D2['all_surface']]:
+        for (n, e), (n2, e2) in zip(D['all_surface'], D2['all_surface']):
+            if not close(e2, e, None if e is None else T(e, 2)):
+                F.add('column.surface', 'column %r (no surface record: default surface) has surface elevation %r, '
+                      'comes back with %r' % (n, e, e2), 'default-surface-column')
+                break
     if [(n, len(p)) for n, p in D['wells']] != [(n, len(p)) for n, p in D2['wells']]:
         F.add('well.tracks', 'wells %r came back as %r' % ([(n, len(p)) for n, p in D['wells']],
                                                           [(n, len(p)) for n, p in D2['wells']]))
     elif coords:
         for (n, ps), (n2, ps2) in zip(D['wells'], D2['wells']):
             for p, p2 in zip(ps, ps2):
-                if not all(close(b_, a_, tw) for a_, b_ in zip(p, p2)):
+                if not all(close(b_, a_, T(a_, 1)) for a_, b_ in zip(p, p2)):
                     F.add('well.xyz', 'well %r point %r came back as %r' % (n, p, p2))
+    if 'column.surface' in F.clauses:
+        return      # the block lists follow from the column surfaces: same finding
     if D['block_name_list'] != D2['block_name_list']:
         F.add('block_name_list', 'block name list differs: %d names %r... -> %d names %r...'
               % (len(D['block_name_list']), first_diff(D['block_name_list'], D2['block_name_list']),
@@ -738,7 +802,7 @@ def cmp_mem(D, D2, F, coords=True):
 
 def desc_diff(D1, D2):
     """First part of two descriptions that differs (exact comparison) -> (part, text) or None."""
-    for k in ('header', 'nodes', 'columns', 'connections', 'layers', 'surface', 'wells', 'block_name_list',
+    for k in ('header', 'nodes', 'columns', 'connections', 'layers', 'surface', 'all_surface', 'wells', 'block_name_list',
               'block_connection_name_list'):
         a, b = D1[k], D2[k]
         if a != b:
@@ -933,6 +997,8 @@ def evaluate(spec, tier='thorough'):
     else:
         names = list(STYLES)[:4 if tier == 'thorough' else 2]
     img = file_image(D)
+    if spec.get('over'):
+        names = []      # a Fortran program cannot print these values in F10.2: there is no reference-written file
     base_clauses = None
     for sname in names:
         Fs = Findings('read(ref-written)' + hist, ucls)
